@@ -1,0 +1,102 @@
+//go:build verif
+
+// Contracts for package oauth, checked by /verif/govc (comment-only; not part of any normal build).
+
+package oauth
+
+//@ func (resolver.KeyResolver).ResolveKeyByID
+//@   trusted
+//@   benign
+//@ func did.ParseDID
+//@   trusted
+//@   benign
+//@   ensures isNilIface(result.1) ==> result.0 != nil
+//@ func did.ParseDIDURL
+//@   trusted
+//@   benign
+//@   ensures isNilIface(result.1) ==> result.0 != nil
+//@ func (vcr.Finder).Search
+//@   trusted
+//@   benign
+//@ func (jsonld.JSONLD).DocumentLoader
+//@   trusted
+//@   benign
+//@ func (jsonld.Reader).Read
+//@   trusted
+//@   benign
+//@ func (jsonld.Document).ValueAt
+//@   trusted
+//@   benign
+//@ func (jsonld.Scalar).String
+//@   trusted
+//@   pure
+
+// ---- C17: the v1 JWT bearer token is verified with a key of its issuer ----
+// RFC003 5.2.1.3: the signing key (kid) must be an assertion-method key of the DID in iss. The key the
+// signature was verified with is the one kid denotes (parseAndValidateJwtBearerToken); validateIssuer
+// therefore has to tie kid to iss before anything is derived from iss.
+//@ func (*authzServer).validateIssuer
+//@   prop C17
+//@   requires vContext != nil && !isNilIface(vContext.jwtBearerToken)
+//@   loop 1 invariant true
+//@   call (resolver.KeyResolver).ResolveKeyByID #1 requires [signing-key-is-a-key-of-the-issuer]
+//@        isNilIface(ret(call did.ParseDID #1).1) && arg(call did.ParseDID #1, 0) == vContext.jwtBearerToken.Issuer()
+//@        && isNilIface(ret(call did.ParseDIDURL #1).1) && arg(call did.ParseDIDURL #1, 0) == vContext.kid
+//@        && ret(call (did.DID).Equals #1) == true && same(arg(call (did.DID).Equals #1, 0), ret(call did.ParseDIDURL #1).0.DID)
+//@        && same(arg(call (did.DID).Equals #1, 1), *ret(call did.ParseDID #1).0)
+//@        && arg(1) == vContext.kid && arg(3) == resolver.NutsSigningKeyType
+//@   call (vcr.Finder).Search #1 requires [identity-only-after-the-key-check] did(call (resolver.KeyResolver).ResolveKeyByID #1) && isNilIface(ret(call (resolver.KeyResolver).ResolveKeyByID #1).1)
+
+// The kid recorded for the token is the kid crypto.ParseJWT asked the key for, and the key handed
+// back is the signing key that kid resolves to.
+//@ func (*authzServer).parseAndValidateJwtBearerToken$1
+//@   prop C17
+//@   ensures [resolves-the-tokens-own-kid] kidHdr == kid && did(call (resolver.KeyResolver).ResolveKeyByID #1) && arg(call (resolver.KeyResolver).ResolveKeyByID #1, 1) == kid
+//@        && arg(call (resolver.KeyResolver).ResolveKeyByID #1, 3) == resolver.NutsSigningKeyType && result.0 == ret(call (resolver.KeyResolver).ResolveKeyByID #1).0
+
+// An access token is built only for a request that passed every validation step, on the one context
+// whose requester/authorizer end up in the token.
+//@ func (*authzServer).parseAndValidateJwtBearerToken
+//@   trusted
+//@   ensures isNilIface(result) ==> !isNilIface(context.jwtBearerToken)
+//@ func (*authzServer).validateSubject
+//@   trusted
+//@   ensures isNilIface(result) ==> validationCtx.authorizer != nil
+//@ func (*authzServer).validatePurposeOfUse
+//@   trusted
+//@ func (*authzServer).validateAudience
+//@   trusted
+//@ func (*authzServer).validateAuthorizationCredentials
+//@   trusted
+//@ func (*authzServer).validateRequester
+//@   trusted
+//@ func (validationContext).userIdentity
+//@   trusted
+//@ func (services.ContractNotary).VerifyVP
+//@   trusted
+//@   benign
+//@ func (contract.VPVerificationResult).*
+//@   trusted
+//@   benign
+//@ func (*authzServer).buildAccessToken
+//@   trusted
+//@   benign
+
+//@ func (*authzServer).validateAccessTokenRequest
+//@   prop C17
+//@   ensures [every-step-passed-on-the-returned-context] isNilIface(result.1) ==>
+//@        result.0 != nil
+//@        && did(call (*authzServer).parseAndValidateJwtBearerToken #1) && isNilIface(ret(call (*authzServer).parseAndValidateJwtBearerToken #1)) && arg(call (*authzServer).parseAndValidateJwtBearerToken #1, 1) == result.0
+//@        && did(call (*authzServer).validateIssuer #1) && isNilIface(ret(call (*authzServer).validateIssuer #1)) && arg(call (*authzServer).validateIssuer #1, 1) == result.0
+//@        && did(call (*authzServer).validateSubject #1) && isNilIface(ret(call (*authzServer).validateSubject #1)) && arg(call (*authzServer).validateSubject #1, 2) == result.0
+//@        && did(call (*authzServer).validatePurposeOfUse #1) && isNilIface(ret(call (*authzServer).validatePurposeOfUse #1)) && arg(call (*authzServer).validatePurposeOfUse #1, 1) == result.0
+//@        && did(call (*authzServer).validateAudience #1) && isNilIface(ret(call (*authzServer).validateAudience #1)) && arg(call (*authzServer).validateAudience #1, 1) == result.0
+//@        && did(call (*authzServer).validateAuthorizationCredentials #1) && isNilIface(ret(call (*authzServer).validateAuthorizationCredentials #1)) && arg(call (*authzServer).validateAuthorizationCredentials #1, 1) == result.0
+//@   call (*authzServer).validateIssuer #1 requires [signature-verified-first] did(call (*authzServer).parseAndValidateJwtBearerToken #1) && isNilIface(ret(call (*authzServer).parseAndValidateJwtBearerToken #1)) && arg(1) == validationCtx && arg(call (*authzServer).parseAndValidateJwtBearerToken #1, 1) == validationCtx
+//@   call (*authzServer).validateRequester #1 requires [contract-verified-valid] did(call (services.ContractNotary).VerifyVP #1) && isNilIface(ret(call (services.ContractNotary).VerifyVP #1).1) && arg(1) == validationCtx
+
+//@ func (*authzServer).CreateAccessToken
+//@   prop C17
+//@   call (*authzServer).buildAccessToken #1 requires [token-only-for-a-validated-request] isNilIface(ret(call (*authzServer).validateAccessTokenRequest #1).1)
+//@        && same(arg(2), *ret(call (*authzServer).validateAccessTokenRequest #1).0.requester) && same(arg(3), *ret(call (*authzServer).validateAccessTokenRequest #1).0.authorizer)
+//@   ensures [no-token-without-validation] result.0 != nil ==> isNilIface(ret(call (*authzServer).validateAccessTokenRequest #1).1) && did(call (*authzServer).buildAccessToken #1) && isNilIface(ret(call (*authzServer).buildAccessToken #1).2)
